@@ -28,9 +28,15 @@ Definition run_searched (v : val) : val :=
       of_bool (slice_needs_transcoding c input);
       enc_enc (effective_decoder (decode_settings_of c) input)].
 
+(* kind 1705: (chunks) -> (streamed whole): the UTF-8 decoder with BOM removal *)
+Definition run_decoder8 (v : val) : val :=
+  let chunks := map as_bytes (as_list (fld 0 v)) in
+  VL [of_bytes (u8_stream u8_init chunks); of_bytes (utf8_to_utf8 (concat chunks))].
+
 Definition entry (k : N) (v : val) : option val :=
   match k with
   | 1701%N => Some (run_decoder v)
   | 1703%N => Some (run_searched v)
+  | 1705%N => Some (run_decoder8 v)
   | _ => None
   end.
